@@ -816,6 +816,9 @@ class GraphQLSchema:
 
     def _validate_object_extensions(self) -> List[str]:
         errors = []
+        # Members already added by a previous extension of the same type
+        added_fields = {}
+        added_interfaces = {}
 
         for extension in [
             x
@@ -830,20 +833,33 @@ class GraphQLSchema:
             errors.extend(ext_errors)
             if not ext_errors:
                 for field in extension.fields:
-                    if field in extended.implemented_fields:
+                    if (
+                        field in extended.implemented_fields
+                        or field in added_fields.get(extension.name, ())
+                    ):
                         errors.append(
                             f"Can't add Field < {field} > to "
                             f"TYPE < {extended.name} > "
                             f"cause field already exists."
                         )
+                added_fields.setdefault(extension.name, set()).update(
+                    extension.fields
+                )
 
                 for interface in extension.interfaces:
-                    if interface in extended.interfaces_names:
+                    if (
+                        interface in extended.interfaces_names
+                        or interface
+                        in added_interfaces.get(extension.name, ())
+                    ):
                         errors.append(
                             f"Can't add Interface < {interface} > "
                             f"to TYPE < {extended.name} > "
                             f"cause Interface already exists."
                         )
+                added_interfaces.setdefault(extension.name, set()).update(
+                    extension.interfaces
+                )
 
                 errors.extend(
                     _validate_extension_directives(extension, extended, "TYPE")
@@ -853,6 +869,7 @@ class GraphQLSchema:
 
     def _validate_union_extensions(self) -> List[str]:
         errors = []
+        added_types = {}
 
         for extension in [
             x
@@ -867,12 +884,17 @@ class GraphQLSchema:
             errors.extend(ext_errors)
             if not ext_errors:
                 for typ in extension.types:
-                    if typ in extended.types:
+                    if typ in extended.types or typ in added_types.get(
+                        extension.name, ()
+                    ):
                         errors.append(
                             f"Can't add PossibleType < {typ} > to "
                             f"UNION < {extended.name} > "
                             f"cause PossibleType already exists."
                         )
+                added_types.setdefault(extension.name, set()).update(
+                    extension.types
+                )
 
                 errors.extend(
                     _validate_extension_directives(
@@ -884,6 +906,7 @@ class GraphQLSchema:
 
     def _validate_input_object_extensions(self) -> List[str]:
         errors = []
+        added_fields = {}
 
         for extension in [
             x
@@ -903,17 +926,24 @@ class GraphQLSchema:
                 )
 
                 for ifield in extension.input_fields:
-                    if ifield in extended.input_fields:
+                    if (
+                        ifield in extended.input_fields
+                        or ifield in added_fields.get(extension.name, ())
+                    ):
                         errors.append(
                             f"Can't add Input Field < {ifield} > "
                             f"to Input Object < {extended.name} > "
                             f"cause it already exists"
                         )
+                added_fields.setdefault(extension.name, set()).update(
+                    extension.input_fields
+                )
 
         return errors
 
     def _validate_interface_extensions(self) -> List[str]:
         errors = []
+        added_fields = {}
 
         for extension in [
             x
@@ -928,12 +958,18 @@ class GraphQLSchema:
             errors.extend(ext_errors)
             if not ext_errors:
                 for field in extension.fields:
-                    if field in extended.implemented_fields:
+                    if (
+                        field in extended.implemented_fields
+                        or field in added_fields.get(extension.name, ())
+                    ):
                         errors.append(
                             f"Can't add Field < {field} > to "
                             f"INTERFACE < {extended.name} > "
                             f"cause field already exists."
                         )
+                added_fields.setdefault(extension.name, set()).update(
+                    extension.fields
+                )
 
                 errors.extend(
                     _validate_extension_directives(
